@@ -282,6 +282,38 @@ class Driver:
             st.tpc_abort(t)
             return 'abort'
         mrecs = []
+        # objects the transaction declares it depends on being current
+        # (what Connection.readCurrent leads to): with the serial it read
+        for o, how in op.get('rc', ()):
+            oid = oid_of(o)
+            cur = self.model.current(oid)
+            if cur is None or self.base_driver is not None:
+                continue
+            if cur[1].kind == UNCREATE:
+                # read while it existed: the revision before the un-creation
+                revs = [x for x in self.model.revisions(oid)
+                        if x[1].kind != UNCREATE]
+                if not revs:
+                    continue
+                serial = revs[-1][0]
+                want_rc = 'fail'
+            else:
+                serial = self.pick_serial(oid, how, None)
+                want_rc = 'ok' if serial == cur[0] else 'fail'
+            try:
+                st.checkCurrentSerialInTransaction(oid, serial, t)
+                got_rc = 'ok'
+            except (ConflictError, KeyError):
+                got_rc = 'fail'
+            if got_rc != want_rc:
+                self.flag('readcurrent-outcome', 'dependency on %r at %r '
+                          '(current %s %r): the check %s'
+                          % (oid, serial, 'un-creation' if cur[1].kind ==
+                             UNCREATE else 'revision', cur[0],
+                             'passed' if got_rc == 'ok' else 'failed'))
+            if got_rc == 'fail':
+                st.tpc_abort(t)
+                return 'readconflict'
         for r in op.get('recs', ()):
             oid = oid_of(r['o'])
             if any(m.oid == oid for m, w in mrecs):
